@@ -158,7 +158,7 @@ type c02case struct {
 
 func runC02(c *ctx) {
 	res := c.res
-	res.Rule = "frames: generated XML-ish payloads (markers, '#', digits, LF at chunk edges, multi-byte) x random/exhaustive chunk partitions x whitespace padding, both versions; malformed: labelled mutations of legal frames (truncate at every byte, bad sizes, missing terminator) and random bytes. non-trivial = in-domain frame with >=2 chunks, or a malformed input; distinct by raw bytes"
+	res.Rule = "frames: generated XML-ish payloads (markers and rpc-error spellings, '#', digits, LF at chunk edges, multi-byte, ']]>]]>', declarations) x random/exhaustive chunk partitions (header-length edges to 6, thorough 7, digits) x whitespace padding in front and behind, both versions; malformed: labelled mutations of legal frames (truncate at every byte, bad sizes, missing terminator) and random bytes; message lists of every raw that mentions rpc-error vs the model; driver sessions: RPC method x version x echo mode x segmentation x options x payload size x notifications x how the last reply ends. non-trivial = in-domain frame with >=2 chunks or leading white space, a malformed input, or a driver session; distinct by raw bytes / case seed"
 	var cases []c02case
 	addFrame11 := func(payload []byte, cuts []int, w1, w2 []byte, class string) {
 		cs := cutBytes(payload, cuts)
